@@ -1,3 +1,6 @@
+#define OP_NONE tulz_rwp_Resource_OpType_None
+#define OP_READ tulz_rwp_Resource_OpType_Read
+#define OP_WRITE tulz_rwp_Resource_OpType_Write
 /* prototypes of the models that the lowered Resource code calls (definitions: specs/res_models.h) */
 struct closure_Res__lock_1;
 static _Bool Deq__empty(struct Deq *q);
